@@ -407,6 +407,8 @@ class C16(Property):
         self._race_log = ""
 
         def build_race():
+            if vlib.COVER:
+                return      # coverage runs: one counter mode only (go tool covdata cannot merge -race's atomic counters with the others)
             ok, res = vlib.go_build("c16race", overlay=self._overlay(), race=True)
             if ok:
                 self.racebin = res
@@ -556,6 +558,15 @@ class C16(Property):
         srng = random.Random(1616)
         for obj in ("safemap", "cache", "window", "queue", "ring"):
             cs.append(self._stress_case(srng, obj, 4, 200))
+        # managed sets: the first element fixes the type (every type once), elements of every other type are
+        # complained about in the log and added all the same; membership is that of the mathematical set
+        for first in (0, 1, 2, 4, 3):
+            tags = [first] + [t for t in (0, 1, 2, 3, 4) if t != first]
+            ks = [t * TAG + v for t in tags for v in (0, 7)]
+            cs.append({"kind": "set", "ignore": True, "ops":
+                       [["add", ks[0]], ["count"]] + [["add", k] for k in ks[1:]] + [["count"], ["keys"]] +
+                       [["contains", k] for k in ks] + [["remove", ks[0]], ["remove", ks[3]], ["addany", ks[5]], ["count"], ["keys"]] +
+                       [["keysof", t] for t in tags] + [["contains", ks[0]], ["contains", ks[5]]]})
         # two concurrent Takes of one key (loader gated), limit 1: one load, one entry, one eviction
         cs.append({"kind": "cache_take2", "limit": 1, "ops": [["set", 1, 10], ["take2", 9, 90, 91], ["get", 9], ["get", 1]]})
         cs.append({"kind": "cache_take2", "limit": 2, "ops":
